@@ -646,6 +646,19 @@ func replayMode(t *testing.T, sc *Scenario, rf *ReplayFile) {
 		os.Exit(0)
 	}
 	oc := RunCase(t, sc, &c, true)
+	if os.Getenv("VERIF_REPLAY_TWICE") != "" && oc.Sim != nil {
+		// debugging aid: does the first case of a process differ from later runs of the same case?
+		c2 := rf.Case
+		oc2 := RunCase(t, sc, &c2, true)
+		a, b := oc.Sim.Trace, oc2.Sim.Trace
+		for i := 0; i < len(a) && i < len(b); i++ {
+			if a[i] != b[i] {
+				fmt.Printf("TWICE: first difference at event %d\n  1st: %v\n  2nd: %v\n", i, a[max(0, i-3):min(len(a), i+3)], b[max(0, i-3):min(len(b), i+3)])
+				break
+			}
+		}
+		fmt.Printf("TWICE: hashes %016x %016x lengths %d %d\n", oc.Sim.Hash(), oc2.Sim.Hash(), len(a), len(b))
+	}
 	status := "not-reproduced"
 	if oc.Internal != "" {
 		status = "internal-error: " + oc.Internal
